@@ -18,7 +18,7 @@ from .. import explore as ex
 from .. import seams
 from ..core import Check, pmap, main
 
-KINDS = ('budget', 'exception', 'cache', 'stack')
+KINDS = ('budget', 'exception', 'cache', 'stack', 'nonfinite')
 
 
 def constructor_product(tier):
@@ -36,6 +36,12 @@ def constructor_product(tier):
     for dt, tol in [(1e-5, 1e-3), (1e-4, 1e-2), (1e-3, 0.1)]:
         for cache in (1, 45):
             out.append(bmm.cfg_make(size=(2, 2), cache_size=cache, dt=dt, tol=tol))
+    # intervals not starting at 0
+    for levy, cache, (dt, tol, hw) in itertools.product(['none', 'foster'], [0, 1, 45, None],
+                                                        [(None, 0., False), (0.25, 0., False), (None, 0.1, True),
+                                                         (0.25, 0.1, False)]):
+        out.append(bmm.cfg_make(size=(2, 2), levy=levy, cache_size=cache, dt=dt, tol=tol, halfway=hw, t0=-1., t1=1.))
+        out.append(bmm.cfg_make(size=(2, 2), levy=levy, cache_size=cache, dt=dt, tol=tol, halfway=hw, t0=1., t1=3.))
     return out
 
 
@@ -140,7 +146,9 @@ def run(tier, seed):
     units = []
     for cfg in constructor_product(tier):
         grid = [0., 0.25, 1 / 3, 1.0] if cfg['tol'] == 0 else [0., 0.2, 0.5, 1.0]
-        ops = bmm.grid_ops(grid) + bmm.edge_ops(grid, cfg['tol'])
+        if cfg['t0'] != 0.:
+            grid = bmm.shift_grid([0., 0.25, 0.5, 1.0] if cfg['tol'] == 0 else [0., 0.2, 0.5, 1.0], cfg['t0'], cfg['t1'])
+        ops = bmm.grid_ops(grid, point_eval=(cfg['t0'] != 0.)) + bmm.edge_ops(grid, cfg['tol'])
         units += ex.bfs_units(cfg, entropy, ops, 2, given=given_for(cfg), kinds=KINDS)
         units += ex.dev_units(cfg, entropy, 130, 0, nchunks=1, given=given_for(cfg), kinds=KINDS)
     core = [bmm.cfg_make(size=(2, 2), levy=levy, cache_size=cache, dt=dt, tol=tol, halfway=hw)
@@ -172,6 +180,8 @@ def run(tier, seed):
                 for dtype in ('float32', 'float64'):
                     units.append(dict(kind='sdeint', bm=kind, N=int(round(T / dt)), dtype=dtype, T=T, dt=dt))
     units.sort(key=lambda u: -(u.get('N', 0) if u['kind'] == 'sdeint' else 100 * u.get('N', 0) * (len(u.get('devsets', [])) > 1)))
+    ex.selfcheck_determinism(entropy)
+    chk.count('determinism_selfcheck_passed')
     chk.count('work_units', len(units))
     for part in pmap(run_unit, units):
         chk.merge(part)
